@@ -108,6 +108,15 @@ func TestC09(t *testing.T) {
 		vsender := v.NextFresh()
 		makeCVA(v, vsender, sdk.NewCoins(sdk.NewInt64Coin(Denom, 1_000_000), sdk.NewInt64Coin("uatom", 5000)), nowS-100, nowS+10000, sdk.NewCoins(sdk.NewInt64Coin(Denom, 77)))
 
+		// the sender may be staking: part of its vesting coins (delegated vesting > 0) or more than its
+		// vesting coins of the staking denomination (delegated free > 0; uatom stays locked)
+		senderDelegation := rapid.IntRange(0, 2).Draw(t, "senderDelegation")
+		if senderDelegation > 0 {
+			if res := v.Delegate(vsender, sdk.NewInt([]int64{0, 500_000, 995_000}[senderDelegation])); !res.OK() {
+				t.Fatalf("harness: delegation of the vesting sender failed: %v %v", res.Err, res.Panic)
+			}
+		}
+
 		// target address state
 		var target sdk.AccAddress
 		tk := rapid.IntRange(0, 5).Draw(t, "targetState")
@@ -151,13 +160,13 @@ func TestC09(t *testing.T) {
 				Amount: sdk.NewCoins(sdk.NewInt64Coin(Denom, int64(rapid.IntRange(1, 1000).Draw(t, "amt")))), StartTime: nowS, EndTime: nowS + 1000}
 		case 2:
 			msg = &vestingtypes.MsgSplitVesting{FromAddress: vsender.String(), ToAddress: Spell(t, "targetSp", target),
-				Amount: sdk.NewCoins(sdk.NewInt64Coin(Denom, int64(rapid.IntRange(1, 1000).Draw(t, "amt"))))}
+				Amount: sdk.NewCoins(sdk.NewInt64Coin([]string{Denom, "uatom"}[rapid.IntRange(0, 1).Draw(t, "splitDenom")], int64(rapid.IntRange(1, 1000).Draw(t, "amt"))))}
 			splitLike = true
 		case 3:
 			msg = &vestingtypes.MsgMoveAvailableVesting{FromAddress: vsender.String(), ToAddress: Spell(t, "targetSp", target)}
 			splitLike = true
 		case 4:
-			msg = &vestingtypes.MsgMoveAvailableVestingByDenoms{FromAddress: vsender.String(), ToAddress: Spell(t, "targetSp", target), Denoms: []string{Denom, "uatom"}[:rapid.IntRange(1, 2).Draw(t, "nden")]}
+			msg = &vestingtypes.MsgMoveAvailableVestingByDenoms{FromAddress: vsender.String(), ToAddress: Spell(t, "targetSp", target), Denoms: [][]string{{Denom}, {Denom, "uatom"}, {"uatom"}}[rapid.IntRange(0, 2).Draw(t, "dens")]}
 			splitLike = true
 		default:
 			isSig = true
@@ -219,6 +228,7 @@ func TestC09(t *testing.T) {
 		}
 		nt := tk != 0
 		st.Case(nt, map[string]interface{}{"target": targetKinds[tk], "msg": fmt.Sprintf("%T", msg), "signer": signerIdx, "m": fmt.Sprint(msg)},
-			"target_"+targetKinds[tk], fmt.Sprintf("msg_%T", msg), fmt.Sprintf("accepted_%v", res.OK()), fmt.Sprintf("panic_%v", res.Panic != nil))
+			"target_"+targetKinds[tk], fmt.Sprintf("msg_%T", msg), fmt.Sprintf("accepted_%v", res.OK()), fmt.Sprintf("panic_%v", res.Panic != nil),
+			fmt.Sprintf("sender_%s_splitlike_accepted_%v", []string{"not_staking", "delegated_vesting", "delegated_free"}[senderDelegation], splitLike && res.OK()))
 	})
 }
